@@ -52,8 +52,17 @@ def run_wl(toks):
             setattr(_Seq, m, _mk(m))
     try:
         with contextlib.redirect_stdout(io.StringIO()):
-            m = wl.WangLandauMachine(seq, d, frozen, nbins=nbins, binmin=binmin, binmax=binmax, flatchk=flatchk,
-                                     flatcrit=flatcrit, convergence=float(np.exp(convln)))
+            from . import real as _real
+            if "@wrapper" in _real.FLAGS:
+                # the public route: SequencePermutants(seq).initializeWangLandauParameters(...) builds the machine
+                from localcider.sequencePermutants import SequencePermutants
+                spm = SequencePermutants(seq)
+                spm.initializeWangLandauParameters(d, frozen, nbins=nbins, binmin=binmin, binmax=binmax, flatchck=flatchk,
+                                                   flatcrit=flatcrit, convergence=float(np.exp(convln)))
+                m = spm.WLM
+            else:
+                m = wl.WangLandauMachine(seq, d, frozen, nbins=nbins, binmin=binmin, binmax=binmax, flatchk=flatchk,
+                                         flatcrit=flatcrit, convergence=float(np.exp(convln)))
             if len(toks) > 11 and toks[11] == "second":
                 # the run under test is the SECOND run() of the same machine: it must start from g = 0, H = 0, f = e again
                 m.run()       # (its output files stay in the directory: the second run's files must describe the second run only)
